@@ -19,6 +19,13 @@ if "def" in ast.unparse(ast.parse("𝕕𝕖𝕗 = 1")):
 
     true_unparse = ast.unparse
 
+    def mince(v):
+        # We refer to this transformation as "keyword mincing"
+        # in documentation.
+        if keyword.iskeyword(v) and v not in ("True", "False", "None"):
+            return chr(ord(v[0]) - ord("a") + ord("𝐚")) + v[1:]
+        return v
+
     def rewriting_unparse(ast_obj):
         ast_obj = copy.deepcopy(ast_obj)
         for node in ast.walk(ast_obj):
@@ -27,14 +34,11 @@ if "def" in ast.unparse(ast.parse("𝕕𝕖𝕗 = 1")):
                 continue
             for field in node._fields:
                 v = getattr(node, field, None)
-                if (
-                    type(v) is str
-                    and keyword.iskeyword(v)
-                    and v not in ("True", "False", "None")
-                ):
-                    # We refer to this transformation as "keyword mincing"
-                    # in documentation.
-                    setattr(node, field, chr(ord(v[0]) - ord("a") + ord("𝐚")) + v[1:])
+                if type(v) is list and v and all(type(x) is str for x in v):
+                    # E.g., the names of a `global` or `nonlocal` statement.
+                    setattr(node, field, [mince(x) for x in v])
+                elif type(v) is str:
+                    setattr(node, field, mince(v))
         return true_unparse(ast_obj)
 
     ast.unparse = rewriting_unparse
